@@ -255,6 +255,11 @@ class Net:
         self.drain(nn)
 
     def run(self, wall_timeout=120):
+        # all MCUs enter their application loops once the last one has booted: local clocks
+        # behind the global clock would make a node wait for its own radio's "future"
+        t0 = max([self.world.now] + [nn.wnode.t for nn in self.nodes])
+        for nn in self.nodes:
+            nn.wnode.t = t0 + getattr(nn, "start_offset", 0)
         for nn in self.nodes:
             self.world.spawn(nn.wnode, self.app, nn, daemon=True, start_at=nn.wnode.t)
         ok = self.world.run(wall_timeout=wall_timeout)
